@@ -348,7 +348,8 @@ def main():
         if verdict is True:
             continue
         hit = None
-        for f in open_f:
+        # a line that is a finding's own witness is counted for that finding (several regions may cover it)
+        for f in sorted(open_f, key=lambda f: f.get("witness") != l):
             if R.in_region(f["region"], l, a, b):
                 hit = f
                 break
